@@ -1,0 +1,53 @@
+//go:build verif
+
+// Contracts for package main (proxy), checked by /verif/govc (see /verif/DESIGN.md).
+// This file contains only comments; it is compiled only with -tags verif and
+// has no effect on the package.
+
+package main
+
+// Relay, client to server.  The client connection is a prophecy (rin(client) = every byte
+// it will deliver, in any chunking, with errors at any point); the server connection a
+// ghost log.  At every iteration what has been written to the server is exactly what has
+// been read from the client, and the parser's byte channel has been sent the same bytes;
+// nothing the parser side does can change the chunk between reading and forwarding it
+// (frame obligations: RecordClientBuffer modifies only the report feed).
+//@ func handleClientMessages
+//@ requires[C07] reportFeed != nil && byteChan != nil && !closed(byteChan)
+//@ requires[C19] server != client && unbox(server) != unbox(client) && allocated(byteChan)
+//@ let c0 = gc("rdbytes", client)
+//@ let w0 = gc("wr", server)
+//@ let n0 = sentn(byteChan)
+//@ let in = rin(unbox(client))
+//@ let bch = byteChan
+//@ noterm the relay runs until the client connection reports end of file
+//@ modifies gc("rdbytes", client), gc("rdcalls", client), gc("wr", server), gb("wr", server), sent(byteChan), reportFeed.lastClientBuffer, gc("clock", 0)
+//@ ensures[C19] gc("wr", server) - w0 == gc("rdbytes", client) - c0
+//@ ensures[C19] forall(p, w0, gc("wr", server), gb("wr", server)[p] == in[c0 + p - w0])
+//@ ensures[C19] sentn(bch) - n0 == gc("rdbytes", client) - c0 && forall(k, n0, sentn(bch), sent(bch)[k] == in[c0 + k - n0])
+//@ loop 1
+//@ invariant[C19] byteChan == bch && gc("wr", server) - w0 == gc("rdbytes", client) - c0 && gc("rdbytes", client) >= c0
+//@ invariant[C19] forall(p, w0, gc("wr", server), gb("wr", server)[p] == in[c0 + p - w0])
+//@ invariant[C19] sentn(bch) - n0 == gc("rdbytes", client) - c0 && forall(k, n0, sentn(bch), sent(bch)[k] == in[c0 + k - n0])
+//@ loop 2
+//@ invariant[C19] byteChan == bch && 0 <= i && i <= n && len(data) == 2048 && fresh(data) && n <= 2048
+//@ invariant[C19] gc("wr", server) - w0 == gc("rdbytes", client) - n - c0 && gc("rdbytes", client) - n >= c0
+//@ invariant[C19] forall(p, w0, gc("wr", server), gb("wr", server)[p] == in[c0 + p - w0])
+//@ invariant[C19] forall(k, 0, n, data[k] == in[gc("rdbytes", client) - n + k])
+//@ invariant[C19] sentn(bch) - n0 == gc("rdbytes", client) - n - c0 + i && forall(k, n0, sentn(bch), sent(bch)[k] == in[c0 + k - n0])
+//@ decreases[C07,C19] n - i
+
+// Relay, server to client.
+//@ func handleServerMessages
+//@ requires[C07] reportFeed != nil
+//@ requires[C19] server != client && unbox(server) != unbox(client)
+//@ let c0 = gc("rdbytes", server)
+//@ let w0 = gc("wr", client)
+//@ let in = rin(unbox(server))
+//@ noterm the relay runs until the server connection fails
+//@ modifies gc("rdbytes", server), gc("rdcalls", server), gc("wr", client), gb("wr", client), reportFeed.lastServerBuffer, gc("clock", 0)
+//@ ensures[C19] gc("wr", client) - w0 == gc("rdbytes", server) - c0
+//@ ensures[C19] forall(p, w0, gc("wr", client), gb("wr", client)[p] == in[c0 + p - w0])
+//@ loop 1
+//@ invariant[C19] gc("wr", client) - w0 == gc("rdbytes", server) - c0 && gc("rdbytes", server) >= c0
+//@ invariant[C19] forall(p, w0, gc("wr", client), gb("wr", client)[p] == in[c0 + p - w0])
